@@ -528,3 +528,7 @@ def run(ctx):
     ctx.rule("R9.msgbuf", "library: every sprintf / strcpy / strcat into a character array of constant size produces at most size-1 "
              "characters (format widths by C type, %s by the bound of its argument; unbounded arguments fail)")
     r9msgbuf.check(ctx, ctx.program(groups=["lib"]), "R9.msgbuf", 20)
+    from rules import r9intround
+    ctx.rule("R9a.intround", "header element counts (bounded only by NC_MAX_INT) are not rounded up / incremented / multiplied in 32-bit "
+             "signed arithmetic")
+    r9intround.check(ctx, ctx.program(names=["ncmpio_header_get.c"]), "R9a.intround", ("ncmpio_header_get.c",), 3)
